@@ -105,8 +105,42 @@ def leaf_class(name):
     return getattr(T, name)
 
 
+_USER_HOOK = []
+
+
+def user_hook_class():
+    """a user-written transform that uses the documented per-worker hook: `_worker_init_fn` derives further per-worker state from the
+    generator the worker was just given (e.g. a second generator for a torch-side noise source)"""
+    if not _USER_HOOK:
+        from kappadata.transforms.base.kd_stochastic_transform import KDStochasticTransform
+
+        class UserHookTransform(KDStochasticTransform):
+            def __init__(self):
+                super().__init__()
+                self.derived = np.random.default_rng(int(self.rng.integers(2 ** 31)))
+
+            def _worker_init_fn(self, rank, num_workers, **kwargs):
+                self.derived = np.random.default_rng(int(self.rng.integers(2 ** 31)))
+
+            def __call__(self, x, ctx=None):
+                return x + float(self.derived.random()) * 1e-3 + float(self.rng.random()) * 1e-3
+        _USER_HOOK.append(UserHookTransform)
+    return _USER_HOOK[0]
+
+
+class PlainMember:
+    """a plain deterministic callable (what a torchvision transform or a lambda is to the library): no set_rng, no ctx"""
+
+    def __call__(self, x):
+        return x.flip(-1) if torch.is_tensor(x) else x
+
+
 def build(spec):
     k = spec["k"]
+    if k == "plain":
+        return PlainMember()
+    if k == "user_hook":
+        return user_hook_class()()
     if k == "compose":
         from kappadata.transforms import KDComposeTransform
         return KDComposeTransform([build(m) for m in spec["m"]])
@@ -138,6 +172,8 @@ def family(spec):
         return family(spec["t"])  # all img inputs are 8x12, divisible by the patch size 4
     if k == "pipeline":
         return "pipeline"
+    if k in ("user_hook", "plain"):
+        return "img"
     return LEAVES[k][0]
 
 
